@@ -267,6 +267,19 @@ def body(c, stats: Stats):
         t3 = Encoder.encode_string(db2)
         if t3 != t2:
             raise Violation('printing is not idempotent\nfirst:\n%s\nsecond:\n%s' % (t2, t3), c, 'rt-idempotent')
+        # history: parsing is a function of the text - another database parsed in between (one that declares this database's
+        # constants as variables and its variables as constants) must not change what the printed text parses to
+        other = '$c %s $.\n$v %s $.\n' % (' '.join(VARS + ['zz']), ' '.join(CONSTS))
+        try:
+            parse_database(other)
+        except Exception as e:
+            raise Violation('a small database with unusual variable names does not parse: %s' % str(e)[:200], dict(c, other=other), 'rt-other')
+        try:
+            db4 = parse_database(t2)
+        except Exception as e:
+            raise Violation('after another database was parsed in the same process, the printed form no longer parses (%s)\nprinted:\n%s\nother:\n%s' % (str(e)[:200], t2, other), c, 'rt-history')
+        if db4 != db1:
+            raise Violation('after another database was parsed in the same process, parse(print(db)) differs from db\ninput:\n%s\nother database:\n%s' % (text, other), c, 'rt-history')
         return
     # slice
     from proof_generation.metamath.metamath_extract_slice import slice_database, syntax_dependencies
